@@ -24,8 +24,9 @@ EXHAUSTIVE_SUBSPACES = []
 
 def plan(tier, seed):
   q = tier == 'quick'
-  specs = [{'shard': 'rsa-%d' % i, 'keys': 70 if q else 1800, 'weight': 6}
-           for i in range(12)]
+  # (a healthy key costs 1-3 s: two prime searches plus the whole registry)
+  specs = [{'shard': 'rsa-%d' % i, 'keys': 70 if q else 600, 'weight': 6,
+            'timeout': 1500 if q else 3600} for i in range(12)]
   specs += [{'shard': 'rsamixed-%d' % i, 'batches': 3 if q else 40,
              'weight': 4} for i in range(4)]
   for i, c in enumerate(gen.STRONG):
@@ -64,7 +65,7 @@ def run_rsa(ctx, spec):
   left = spec['keys']
   sizes = [1, 2, 5, 17, 40, 200]
   bi = 0
-  while left > 0:
+  while left > 0 and not ctx.spent():
     size = min(left, sizes[bi % len(sizes)])
     bi += 1
     if ctx.tier == 'quick':
